@@ -30,6 +30,9 @@ CLAIMED = {
     "C12": ("runtime monitoring: boundary recorder on __getitem__/get/keys/items/len/action_dist of real Table/ProbabilityTable/StateTable/StateActionTable/TabularPolicy objects; oracle = table_resolve, an independent nested-dictionary model with the outermost-element priority rule",
             "Held-on-K-executions over generated tables with deliberately colliding key spaces: all full keys, nested keys, outer-key lists, slices/ellipses and foreign keys are resolved by both the real table and the model.",
             "trusts the 60-line table_resolve model in the check", "§4 C12"),
+    "C07": ("runtime monitoring: boundary recorder on state_estimator(_vec), predictive_observation_dist/_vec, observation_matrix, BeliefMDP.* and next_agentstate over ALL (belief, action, observation) triples of each generated POMDP incl. impossible observations; oracle = independent dictionary Bayes filter",
+            "Held-on-K-executions: every filter update / predictive distribution / belief-MDP transition produced by the real code is compared with an independent Bayes computation. Exploration: all-inputs property.",
+            "trusts mon/ref/bayes.py (40 lines) and float64 at 1e-12", "§4 C07"),
 }
 
 PENDING_REASON = "check not built yet in this round (design in DESIGN.md §4); not claimed until its monitor exists and is silent on the unchanged tree"
